@@ -258,7 +258,8 @@ def gen_query(rng, sim, pool):
         b = None if rng.random() < 0.25 else str(rnd_point(rng, w))
         if a is not None and b is not None and F(a) > F(b) and rng.random() < 0.9:
             a, b = b, a
-        q = {'k': 'integrate', 'a': a, 'b': b, 'rule': 'trapz' if rng.random() < 0.6 else 'simps', 'form': rng.randrange(3)}
+        q = {'k': 'integrate', 'a': a, 'b': b, 'rule': 'trapz' if rng.random() < 0.6 else 'simps', 'form': rng.randrange(4),
+             'pos': rng.random() < 0.3}
         pool.append(q)
         return dict(q)
     if t < 0.65:
@@ -269,7 +270,7 @@ def gen_query(rng, sim, pool):
         c = [x if x > 0 else F(1, 4) for x in c]
         q = {'k': 'bin', 'c': fs(c), 'rule': 'trapz' if rng.random() < 0.55 else 'simps',
              'ends': 'symmetric' if rng.random() < 0.5 else 'inside', 'pp': rng.random() < 0.65, 'form': rng.randrange(2),
-             'flag': rng.randrange(3)}
+             'flag': rng.randrange(3), 'pos': rng.random() < 0.3}
         pool.append(q)
         return dict(q)
     if t < 0.93 or not sim.vu:
@@ -295,7 +296,7 @@ def gen_op(rng, sim, budget):
         if rng.random() < 0.06 and w:
             a = w[-1] + F(1, 2)
             b = a + 2
-        return {'k': 'crop', 'a': str(a), 'b': str(b)}
+        return {'k': 'crop', 'a': str(a), 'b': str(b), 'form': rng.randrange(4)}
     if t < 0.38:
         tol = rng.choice([F(0), F(1, 8), F(1, 4), F(1, 2), F(1), F(-1), F(1e-4), F(3, 4)])
         return {'k': 'trim', 'tol': str(tol)}
@@ -434,6 +435,19 @@ def gen_history(rng):
 INT_DTYPES = ['int', 'uint8', 'uint16', 'uint32', 'uint64']
 
 
+def has_near_tie(x):
+    if isinstance(x, dict):
+        return any(has_near_tie(v) for v in x.values())
+    if isinstance(x, list):
+        return any(has_near_tie(v) for v in x)
+    if isinstance(x, str) and '/' in x:
+        try:
+            return F(x).denominator > 2 ** 16
+        except ValueError:
+            return False
+    return False
+
+
 def pick_dtype(rng, c):
     """the representation of the wave/value arrays and of the array arguments of the editing calls: every dtype must
     behave like its float64 twin; or (float64 only) a power-of-two rescaling of all wavelengths / values, or numpy
@@ -442,13 +456,15 @@ def pick_dtype(rng, c):
         if rng.random() < 0.85:
             c['dtype'] = rng.choice(INT_DTYPES)
             return
-    elif rng.random() < 0.08:
-        c['dtype'] = 'float32'
+    elif rng.random() < 0.08 and not has_near_tie(c):
+        c['dtype'] = 'float32'      # (a near-tie of 2**-23 relative is below float32 resolution: not combined with it)
         return
     pick_presentation(rng, c)
 
 
 def pick_presentation(rng, c):
+    if rng.random() < 0.4:
+        c['scribble'] = True      # the caller writes into every array it gets back
     u = rng.random()
     if u < 0.14:
         c['ws'] = rng.choice([-30, -30, -20, -33, 10])      # 2**-30 ~ 1e-9: nanometre numbers held in metres
@@ -620,6 +636,28 @@ def gen_large(rng, n):
     return {'op': 'seq', 'w': fs(w), 'v': fs(v), 'ops': ops}
 
 
+def gen_zerosum(rng):
+    """degenerate but legal: signed values that sum to exactly zero (a difference of two filters), with wings at or below
+    tolerance - such a spectrum is not 'all zero' and must be trimmed like any other"""
+    n = rng.randint(3, 7)
+    core = [F(rng.randint(-6, 6)) for _ in range(n - 1)]
+    core.append(-sum(core))
+    if max(core) <= 0:
+        core[0], core[-1] = core[0] + 5, core[-1] - 5
+    lead, trail = rng.randint(0, 2), rng.randint(0, 2)
+    v = [F(0)] * lead + core + [F(0)] * trail
+    w = rnd_grid(rng, len(v))
+    ops = [{'k': 'trim', 'tol': str(rng.choice([F(0), F(1, 8), F(1e-4)]))}]
+    if rng.random() < 0.5:
+        ops = [{'k': 'pad', 'e0': str(w[0] - 1) if w[0] > 1 else str(w[0]), 'e1': str(w[-1] + 2), 'samp': None, 'mode': 'default',
+                'form': 0}] + ops
+    if rng.random() < 0.5:
+        ops += [{'k': 'integrate', 'a': None, 'b': None, 'rule': 'trapz', 'form': 0}, {'k': 'trim', 'tol': '1/4'}]
+    c = {'op': 'seq', 'w': fs(w), 'v': fs(v), 'ops': ops}
+    pick_presentation(rng, c)
+    return c
+
+
 def gen_ends(rng):
     w, v = rnd_spectrum(rng)
     return {'op': 'ends', 'w': fs(w), 'v': fs(v),
@@ -642,6 +680,8 @@ def generate(rng, tier):
         yield gen_history(rng)
     for _ in range(120 if quick else 2500):
         yield gen_coincide(rng)
+    for _ in range(60 if quick else 1000):
+        yield gen_zerosum(rng)
     for n in ([1025, 1201] if quick else [1025, 1201, 2049, 3001, 4097 + 3]):
         yield gen_large(rng, n)
     for _ in range(350 if quick else 10000):
@@ -841,7 +881,27 @@ class TaggedArray(np.ndarray):
 
 
 def set_ctx(c):
-    _CTX.update(ws=int(c.get('ws', 0)), vs=int(c.get('vs', 0)), box=c.get('box'), held=[])
+    _CTX.update(ws=int(c.get('ws', 0)), vs=int(c.get('vs', 0)), box=c.get('box'), held=[], ret=[],
+                scribble=bool(c.get('scribble')))
+
+
+def hold(label, a):
+    """keep an array the library RETURNED (bins, asarray(), the arrays of a copy) for the rest of the history: it is the
+    caller's now. Optionally the caller scribbles over it at once (later calls must not care); at the end of the
+    history it must still hold what the caller last saw in it"""
+    if not isinstance(a, np.ndarray):
+        return
+    if _CTX['scribble'] and a.flags.writeable and a.dtype.kind == 'f' and a.size:
+        a += 977.0
+        a[0] = -3.0
+    _CTX['ret'].append((label, a, np.array(a, copy=True)))
+
+
+def returned_arrays_intact():
+    for label, a, snap in _CTX['ret']:
+        if not np.array_equal(np.asarray(a), snap, equal_nan=True):
+            return f'{label}: the returned array read {snap.tolist()} when the caller last looked and reads {np.asarray(a).tolist()} after the later calls'
+    return None
 
 
 def SW(x):
@@ -884,20 +944,50 @@ def num(x, form):
         return np.float64(float(q))
     if form == 2 and q.denominator == 1:
         return int(q)
+    if form == 3 and q.denominator == 1 and 0 <= q <= 255:
+        return np.uint8(int(q))      # a small-width integer scalar: comparisons and differences must not wrap
     return float(q)
 
 
 def query(s, o):
     if o['k'] == 'integrate':
         f = o.get('form', 0)
-        r = s.integrate(None if o['a'] is None else SW(num(o['a'], f)), None if o['b'] is None else SW(num(o['b'], f)),
-                        method=o['rule'])
+        a_, b_ = None if o['a'] is None else SW(num(o['a'], f)), None if o['b'] is None else SW(num(o['b'], f))
+        r = s.integrate(a_, b_, o['rule']) if o.get('pos') else s.integrate(a_, b_, method=o['rule'])
         return float(r) / 2.0 ** (_CTX['ws'] + _CTX['vs'])
     c = SW(arr(o['c'])) if o.get('form', 0) == 0 else [SW(x) for x in fl(o['c'])]
     pp = o['pp']
     pp = np.bool_(pp) if o.get('flag') == 1 else int(pp) if o.get('flag') == 2 else pp      # truthy is as good as True
-    return [float(x) / 2.0 ** (_CTX['ws'] + _CTX['vs'])
-            for x in np.ma.getdata(s.bin(c, interp_method=o['rule'], ends=o['ends'], preserve_power=pp))]
+    raw = s.bin(c, o['rule'], o['ends'], pp) if o.get('pos') else s.bin(c, interp_method=o['rule'], ends=o['ends'], preserve_power=pp)
+    out = [float(x) / 2.0 ** (_CTX['ws'] + _CTX['vs']) for x in np.ma.getdata(raw)]
+    hold(f"bin({o['rule']}, {o['ends']}, preserve_power={o['pp']})", raw)
+    return out
+
+
+def bystander_make(c):
+    """another object of the class, built before the session and never touched by it: nothing the session does to ITS
+    object (accepted or refused) may show on this one"""
+    if len(c['w']) < 2:
+        return None
+    lentil = C.import_lentil()
+    b = lentil.radiometry.Spectrum(arr(c['w']), arr(c['v'])[::-1].copy() + 1.0)
+    cen = arr(c['w'])[:3] if len(c['w']) >= 3 else arr(c['w'])
+    snap = (b.wave.copy(), b.value.copy(), float(b.integrate(method='trapz')),
+            np.array(b.bin(cen, interp_method='trapz', ends='inside', preserve_power=False), copy=True))
+    return b, cen, snap
+
+
+def bystander_check(by):
+    if by is None:
+        return None
+    b, cen, (w0, v0, i0, b0) = by
+    if not (np.array_equal(b.wave, w0) and np.array_equal(b.value, v0)):
+        return 'a second Spectrum object, never touched by the session, changed'
+    i1 = float(b.integrate(method='trapz'))
+    b1 = np.asarray(b.bin(cen, interp_method='trapz', ends='inside', preserve_power=False))
+    if i1 != i0 or not np.array_equal(b1, b0, equal_nan=True):
+        return f'a second Spectrum object, never touched by the session, now answers integrate {i1!r} (was {i0!r}) / bin {b1.tolist()} (was {b0.tolist()})'
+    return None
 
 
 def state(s):
@@ -908,6 +998,8 @@ def state(s):
 def call_op(s, o, dtype=None):
     k = o['k']
     if k == 'crop':
+        if _CTX['ws'] == 0:
+            return s.crop(num(o['a'], o.get('form', 0)), num(o['b'], o.get('form', 0)))
         return s.crop(SW(float(F(o['a']))), SW(float(F(o['b']))))
     if k == 'trim':
         return s.trim(float(F(o['tol'])))
@@ -981,18 +1073,24 @@ def run_impl_raw(c):
             lentil = C.import_lentil()
             steps = []
             dt = c.get('dtype')
+            err0 = np.geterr()
+            by = bystander_make(c)
             for o in c['ops']:
                 err, ret, ans, fresh = None, None, None, None
                 try:
                     if o['k'] in ('integrate', 'bin'):
                         ans = query(s, o)
                     elif o['k'] == 'asarray':
-                        r = np.asarray(s.asarray())
+                        r0 = s.asarray()
+                        r = np.array(r0, copy=True)
+                        hold('asarray()', r0)
                         ret = {'w': [float(x) / 2.0 ** _CTX['ws'] for x in r[0]], 'v': [float(x) / 2.0 ** _CTX['vs'] for x in r[1]]}
                     else:
                         r = call_op(s, o, dt)
                         if o['k'] == 'append' and o.get('copy'):
                             ret = state(r)
+                            hold('wave of append(copy=True)', r.wave)
+                            hold('value of append(copy=True)', r.value)
                 except Exception as e:
                     err = type(e).__name__
                 st = state(s)
@@ -1009,7 +1107,8 @@ def run_impl_raw(c):
                         fresh = {'err': type(e).__name__}
                     st['ans'], st['fresh'] = ans, fresh
                 steps.append(st)
-            res = {'steps': steps, 'init': state(mk(c['w'], c['v'], c.get('vu'), dt)), 'caller_ok': caller_arrays_intact()}
+            res = {'steps': steps, 'init': state(mk(c['w'], c['v'], c.get('vu'), dt)), 'caller_ok': caller_arrays_intact(),
+                   'returned': returned_arrays_intact(), 'bystander': bystander_check(by), 'errstate_ok': np.geterr() == err0}
             if dt is not None:
                 # the float64 twin: same calls, float64 arrays everywhere
                 twin = run_impl_raw({k: v for k, v in c.items() if k != 'dtype'})
@@ -1046,6 +1145,20 @@ def run_impl_raw(c):
                                                                          preserve_power=False))]
             except Exception as e:
                 res['raw'] = None
+            try:
+                # the bins are the caller's: a later bin() with as many centres on ANOTHER spectrum must not reach them
+                held = s.bin(SW(arr(c['c'])), interp_method=c['rule'], ends=c['ends'], preserve_power=c['pp'])
+                hold('bin()', held)
+                other = mk(c['w'], [str(F(x) * 3 + 1) for x in c['v']][::-1])
+                for kw in ({'interp_method': c['rule'], 'ends': c['ends'], 'preserve_power': False},
+                           {'interp_method': 'simps' if c['rule'] == 'trapz' else 'trapz', 'ends': 'inside', 'preserve_power': True}):
+                    try:
+                        other.bin(SW(arr(c['c'])), **kw)      # only there to disturb; may legitimately refuse
+                    except Exception:
+                        pass
+                res['returned'] = returned_arrays_intact()
+            except Exception:
+                res['returned'] = None
             res['after'] = state(s)
             return res
         if op == 'ends':
@@ -1309,6 +1422,12 @@ def oracle_seq(c, impl):
         return m
     if impl.get('caller_ok') is False:
         return 'an array handed over by the caller (numpy subclass) was modified by the session'
+    if impl.get('returned'):
+        return impl['returned']
+    if impl.get('bystander'):
+        return impl['bystander']
+    if impl.get('errstate_ok') is False:
+        return 'the session changed the numpy error state (np.geterr()) of the caller'
     for k, (o, st) in enumerate(zip(c['ops'], impl['steps'])):
         name = o['k']
         if any(not math.isfinite(x) for x in st['w'] + st['v']):
@@ -1475,6 +1594,8 @@ def oracle(c, impl):
             return None
         if impl['after'] != {'w': fl(c['w']), 'v': fl(c['v'])}:
             return 'bin modified the spectrum'
+        if impl.get('returned'):
+            return impl['returned']
         b = impl['bins']
         if len(b) != len(cs):
             return f'{len(b)} bins for {len(cs)} centres'
